@@ -366,6 +366,29 @@ def r11_branch_targets(run, F):
     run.ob("R11-BRANCH-TARGETS-FRESH", "scan", n >= 8, "src/alpha/generator.rs", "%d branch targets examined (8 counted)" % n)
 
 
+def r12_linkage_set_at_creation(run, F):
+    """Linkage and calling convention are decided once, from the declaration's flags, where the function or global is created.
+    Every LLVMSetLinkage / LLVMSetVisibility / LLVMSetFunctionCallConv in the crate acts on a value produced by LLVMAddFunction /
+    LLVMAddGlobal in the same function; none walks the functions of a finished module (LLVMGetFirstFunction, LLVMGetNamedFunction)
+    to change what `declare` decided -- a post-link pass that makes `pub` functions private leaves valid IR that no longer exports
+    them."""
+    from rules import origins
+    n = 0
+    for p, b in sorted(F.lib.bodies.items()):
+        if "hir" not in b:
+            continue
+        for c in hirq.calls(b["hir"]):
+            name = (hirq.callee(c) or "").split("::")[-1]
+            if name not in ("LLVMSetLinkage", "LLVMSetVisibility", "LLVMSetFunctionCallConv", "LLVMSetDLLStorageClass"):
+                continue
+            n += 1
+            prod = sorted(str(k[1]).split("::")[-1] if k[0] == "call" else str(k) for k in origins.producers(b["hir"], c["a"][0], b.get("params", ())))
+            ok = bool(prod) and all(x in ("LLVMAddFunction", "LLVMAddGlobal", "LLVMAddGlobalInAddressSpace") for x in prod)
+            run.ob("R12-LINKAGE-SET-AT-CREATION", "%s|%s (order %d)" % (p.split("::")[-1], name, n), ok, F.where(b, c),
+                   "%s is applied to a value produced by %s: linkage and calling convention are set where a function or global is created, from its flags" % (name, prod))
+    run.ob("R12-LINKAGE-SET-AT-CREATION", "scan", n >= 10, "src/alpha/generator.rs", "%d linkage / calling convention settings examined (10 counted)" % n)
+
+
 def check(run):
     F = run.facts("B")
     r9_builtin_types(run, F)
@@ -377,6 +400,7 @@ def check(run):
     r6_symbol_namespace(run, F)
     r8_call_convention(run, F)
     r11_branch_targets(run, F)
+    r12_linkage_set_at_creation(run, F)
     # aggregate constants are not inspected by the in-process verifier: an insertvalue chain of constants with a wrong
     # index folds into a constant of the wrong shape that only the textual IR reader rejects (shared with C01.R7)
     from props import c01
